@@ -23,7 +23,11 @@ Section NextHop.
   Variable sp : string -> option (list string).
   Hypothesis sp_path : forall s p, sp s = Some p -> path_to_t p s.
   Hypothesis sp_min : forall s p q, sp s = Some p -> path_to_t q s -> (length p <= length q)%nat.
-  Hypothesis sp_complete : forall s q, path_to_t q s -> sp s <> None.
+  (* completeness is only needed for paths up to the length bound B of what the oracle returns
+     (a weaker hypothesis than unbounded completeness, so a stronger theorem) *)
+  Variable B : nat.
+  Hypothesis sp_bound : forall s p, sp s = Some p -> (length p <= B)%nat.
+  Hypothesis sp_complete : forall s q, path_to_t q s -> (length q <= B)%nat -> sp s <> None.
 
   Lemma walk_tail a p : is_walk (a :: p) -> is_walk p.
   Proof. destruct p; cbn; tauto. Qed.
@@ -44,7 +48,8 @@ Section NextHop.
   Proof.
     intros Hs ->. pose proof (sp_path _ _ Hs) as Hp.
     pose proof (path_tail _ _ _ Hp) as Hn.
-    destruct (sp n) as [p'|] eqn:En; [|exfalso; eapply sp_complete; eauto].
+    pose proof (sp_bound _ _ Hs) as Hb. cbn [length] in Hb.
+    destruct (sp n) as [p'|] eqn:En; [|exfalso; eapply (sp_complete n (n :: rest)); eauto; cbn [length]; lia].
     exists p'. split; [reflexivity|].
     pose proof (sp_min _ _ _ En Hn) as H1.
     (* conversely s :: p' is a path from s, so p is no longer than it *)
